@@ -337,3 +337,30 @@ def lemma_prover_verifier_agree():
 
 
 LEMMAS = [lemma_prover_verifier_agree]
+
+
+# ------------------------------------------------------------------ quotient_poly::compute: the unsatisfied-circuit decision
+QP = "src/proof_system/quotient_poly.rs"
+CONTRACTS["quotient_domain.size"] = lambda it, recv, a: Sym("size8")
+
+
+def c_quotient_compute(it, recv, a):
+    """t(X) = numerator / Z_H is a polynomial of degree < 7n only if the numerator vanishes on H; the function must
+    return Err(CircuitUnsatisfied) exactly when the interpolated quotient has more than 7 * (|8n domain| / 8) coefficients,
+    and Ok(that polynomial) otherwise."""
+    q = as_poly_sym("havoc:coset#1")
+    cond = VOpaque("gt", [VOpaque("len", [q]), C(7) * P(VOpaque("div", [Sym("size8"), 8]))])
+    it.ctx.exits.append(("err_if", cond, "Error::CircuitUnsatisfied"))
+    return VOk(q)
+
+
+def as_poly_sym(name):
+    return S(name)
+
+
+unit("quotient.compute.decision", QP, "compute",
+     [("quotient_domain", sym("quotient_domain")), ("prover_key", sym("prover_key")), ("z_poly", sym("z_poly")),
+      ("wires", w.T4(["a_poly", "b_poly", "c_poly", "d_poly"])), ("public_inputs_poly", sym("public_inputs_poly")),
+      ("vanishing_coset_inverses", sym("vanishing_coset_inverses")),
+      ("args", w.T4(["alpha", "beta", "gamma", "range_challenge", "logic_challenge", "fixed_base_challenge", "var_base_challenge"]))],
+     c_quotient_compute, vf.out_verify, trace_only=True, tracked=("quotient_poly",))
